@@ -30,7 +30,7 @@ def _subst(node, env, pds):
         return env[("deref", dp)]
     if node.get("k") == "ref" and node.get("rk") == "local" and ("local", node.get("d")) in env:
         return env[("local", node["d"])]
-    return {k: (_subst(v, env, pds) if isinstance(v, (dict, list)) else v) for k, v in node.items()}
+    return {k: (_subst(v, env, pds) if (isinstance(v, (dict, list)) and not k.startswith("_") and k not in ("flagdef", "maskdef", "m")) else v) for k, v in node.items()}
 
 
 def summary(g, max_paths=24):
@@ -115,5 +115,5 @@ def bind(node, g, args):
             t = X.strip(n["ch"][0])
             if t is not None and t.get("k") == "un" and t.get("op") == "&":
                 return fold(t["ch"][0])
-        return {k: (fold(v) if isinstance(v, (dict, list)) else v) for k, v in n.items()}
+        return {k: (fold(v) if (isinstance(v, (dict, list)) and not k.startswith("_") and k not in ("flagdef", "maskdef", "m")) else v) for k, v in n.items()}
     return fold(n2)
